@@ -1,6 +1,6 @@
 (** Entry point of the extracted model driver: one case line in, one result line out.
     The first token selects the operation. *)
-From Lisp Require Import Wire Equal Boot Binder Arena Scanner Reader.
+From Lisp Require Import Wire Equal Boot Binder Arena Scanner Reader Printer.
 
 Definition bad : list N := s_ "BADCASE".
 
@@ -246,6 +246,34 @@ Definition run_read (ts : list tok) : list N :=
   | _ => bad
   end.
 
+(** W <val>: PRINT then READ.  Output: "<printed text as str> | <read outcome>"; the printed text
+    is compared only when the harness says so (maps/sets of more than one entry print in Go's
+    random order): flag 1 = compare text *)
+Definition run_print_read (ts : list tok) : list N :=
+  match ts with
+  | TNum flag :: r =>
+      match parse_value r with
+      | Some (v, []) =>
+          let txt := pr_str true v in
+          (if Z.eqb flag 1 then show_str txt else s_ "- ") ++ s_ "| " ++ show_read_outcome (read_str None None None txt)
+      | _ => bad
+      end
+  | _ => bad
+  end.
+
+(** X <str>: READ, PRINT, READ again.  Output: first outcome | second outcome *)
+Definition run_read_print_read (ts : list tok) : list N :=
+  match parse_str ts with
+  | Some (src, []) =>
+      let o1 := read_str None None None src in
+      show_read_outcome o1 ++ s_ "| " ++
+      match o1 with
+      | Ok v => show_read_outcome (read_str None None None (pr_str true v))
+      | _ => s_ "-"
+      end
+  | _ => bad
+  end.
+
 Definition run_tokens (ts : list tok) : list N :=
   match ts with
   | TTag c :: r =>
@@ -255,6 +283,8 @@ Definition run_tokens (ts : list tok) : list N :=
       else if N.eqb c (tagc "H") then run_history_line r
       else if N.eqb c (tagc "T") then run_tokenize r
       else if N.eqb c (tagc "R") then run_read r
+      else if N.eqb c (tagc "W") then run_print_read r
+      else if N.eqb c (tagc "X") then run_read_print_read r
       else bad
   | _ => bad
   end.
